@@ -89,6 +89,29 @@ func positionOnlyUse(w *World, v ssa.Value, depth int) bool {
 						}
 					})
 				}
+			} else if origins := makeMapOrigins(x.Map, 0, map[ssa.Value]bool{}); len(origins) > 0 {
+				// a local table kept in a variable that closures capture (or that is handed to helpers): every lookup, in any parser
+				// function, of a value that can be one of these maps
+				for _, fn := range w.srcFuncs {
+					if fn.Pkg != w.Parser {
+						continue
+					}
+					forEachInstr(fn, func(_ *ssa.BasicBlock, ins ssa.Instruction) {
+						lk, ok := ins.(*ssa.Lookup)
+						if !ok {
+							return
+						}
+						if _, isMap := lk.X.Type().Underlying().(*types.Map); !isMap {
+							return
+						}
+						for mk := range makeMapOrigins(lk.X, 0, map[ssa.Value]bool{}) {
+							if origins[mk] {
+								lookups = append(lookups, lk)
+								return
+							}
+						}
+					})
+				}
 			} else {
 				return false
 			}
@@ -461,7 +484,7 @@ func runC08(w *World, r *Report) {
 					return
 				}
 				pt, ok := al.Type().(*types.Pointer)
-				if !ok || modelTypeName(pt.Elem()) != tname || recvNamedCore(fn) != "PacketDslVisitorImpl" {
+				if !ok || modelTypeName(pt.Elem()) != tname {
 					return
 				}
 				for _, ref := range *al.Referrers() {
@@ -483,8 +506,9 @@ func runC08(w *World, r *Report) {
 				sites = append(sites, site{fnKey(fn), sortedBoolKeys(set), w.instrPos(ins)})
 			})
 		}
-		if len(sites) < 2 {
-			r.fail(rulePlace, tname+" has an inline and a prefixed construction site", "internal/parser/packet_dsl_parser.go", fmt.Sprintf("found %d construction sites", len(sites)))
+		// one shared constructor for both spellings is fine (and the strongest form of agreement); none at all is not
+		if len(sites) < 1 {
+			r.fail(rulePlace, tname+" has a construction site in the parse phase", "internal/parser/packet_dsl_parser.go", "found no construction site")
 			continue
 		}
 		ref := strings.Join(sites[0].sets, ",")
